@@ -100,6 +100,15 @@ def check_pair(opt, cfg, cfg2, p1, p2, t1, t2, g, viol):
                     reproduced_global.add(fid)
                 else:
                     bad("keys changed", label=lab)
+            else:
+                # the disjunction stands where the single non-literal constraint stood: same cardinality (when the key has one statement
+                # on either side; the figures of the alternatives are compared by C01)
+                for key in ka:
+                    sa = [st for st in on[lab]['stmts'] if (st['inv'], st['prop'], base.stmt_vclass(st, cfg)) == key]
+                    sb = [st for st in off[lab]['stmts'] if (st['inv'], st['prop'], base.stmt_vclass(st, cfg)) == key]
+                    if len(sa) == 1 and len(sb) == 1 and len(sb[0]['types']) > 1 and sa[0]['card'] != sb[0]['card']:
+                        bad("the disjunction has another cardinality than the single constraint it replaces", label=lab, key=list(map(str, key)),
+                            single=[list(sa[0]['types']), sa[0]['card']], disjunction=[list(sb[0]['types']), sb[0]['card']])
             continue
         if set(a) != set(b):
             bad("set of constraints changed", label=lab)
@@ -147,6 +156,10 @@ def ratio_texts(parsed, cfg, viol, g):
                 # strict: must be the ratio rounded to 0 places; truncation is finding F-C13-1
                 from fractions import Fraction
                 exact_ok = abs(Fraction(ratio) - Fraction(100 * n, N)) <= Fraction(1, 2)
+            if cfg['decimals'] >= 0 and '.' in ratio and len(ratio.split('.', 1)[1]) > cfg['decimals']:
+                viol.append({"what": "ratio text %s has more than decimals=%d places (report mode %s)" % (ratio, cfg['decimals'], cfg['report']),
+                             **pipeline.case_json(g, cfg)})
+                continue
             if not exact_ok:
                 obs = {"kind": "ratio_text", "ratio": ratio, "n": n, "N": N, "decimals": cfg['decimals']}
                 fid = F.match(kf_global, obs)
@@ -155,6 +168,28 @@ def ratio_texts(parsed, cfg, viol, g):
                     continue
                 viol.append({"what": "ratio text %s is not %d/%d rounded to %s places" % (ratio, n, N, cfg['decimals']), **pipeline.case_json(g, cfg)})
     return k
+
+
+def mixed_values_graph(rng):
+    k = rng.randint(2, 3)
+    g = []
+    kinds = ['Person', 'Dog', 'Cat'][: rng.randint(2, 3)]
+    members = {c: [I('%s%d' % (c.lower(), j)) for j in range(rng.randint(1, 3))] for c in kinds}
+    for c, ms in members.items():
+        for m in ms:
+            g.append((m, RDF_TYPE, I(c)))
+    for m in members['Person']:
+        typed = [x for c in kinds for x in members[c] if x != m]
+        vals = rng.sample(typed, min(len(typed), rng.randint(1, k - 1)))
+        while len(vals) < k:
+            vals.append(I('x%d' % rng.randint(0, 9)))
+        for v in dict.fromkeys(vals):
+            g.append((m, EX + 'knows', v))
+    for m in members['Dog']:
+        g.append((m, EX + 'name', L('Rex')))
+    g = list(dict.fromkeys(g))
+    rng.shuffle(g)
+    return g
 
 
 def run(ctx):
@@ -167,6 +202,13 @@ def run(ctx):
     for i in range(ngraphs):
         g = gen.gen_graph(rng) if rng.random() < 0.7 else gen.gen_schema_graph(rng)
         cfg = gen.gen_cfg(rng, g, presentation=True, allow_or=True)
+        if i % 4 == 3:
+            # every instance has several values of one property, some in classes, some in none: the plain node kind stands at another
+            # cardinality ({2}, {3}) than each shape alternative - what a disjunction (redundant or not) must leave alone
+            g = mixed_values_graph(rng)
+            cfg = gen.gen_cfg(rng, g, presentation=True, allow_or=True)
+            cfg.update(th=(0, 1), target_mode='all', targets=None, inst_prop=RDF_TYPE, cap=-1, ignore_ns=None,
+                       disable_or=False, allow_redundant_or=rng.random() < 0.7)
         for opt in OPTIONS:
             if opt == 'allow_opt' and not cfg['all_compliant']:
                 cfg = dict(cfg, all_compliant=True)
